@@ -125,6 +125,8 @@ type Tx struct {
 	Grantee int     `json:"grantee,omitempty"` // account executing a MsgExec
 	Fault   int     `json:"fault,omitempty"`   // lab.Fault*
 	Granter int     `json:"granter,omitempty"` // fee granter account index+1 (0 = none)
+	// FeePayer: account index+1 of an explicit fee payer (AuthInfo.Fee.Payer) who co-signs; 0 = the first signer pays.
+	FeePayer int `json:"fee_payer,omitempty"`
 	Check   bool    `json:"check,omitempty"`   // run CheckTx before DeliverTx
 	// Repeat > 1: the transaction is built and delivered that many times in a row (each time resolved
 	// against the then-current state): bulk populations around pagination / page-size boundaries.
